@@ -55,6 +55,37 @@ def variants(u, pred):
     ]
 
 
+def alg_tree(cv):
+    """rdflib CompValue -> [name, [[key, subtree or opaque tag] ...]] (keys in dictionary order; anything that is not a CompValue is
+    opaque: _optimize_node does not look into it)."""
+    import hashlib
+
+    from rdflib.plugins.sparql.parserutils import CompValue
+
+    fields = []
+    for k, v in cv.items():
+        if isinstance(v, CompValue):
+            fields.append([k, alg_tree(v)])
+        else:
+            r = repr(sorted(map(repr, v))) if isinstance(v, (set, frozenset)) else repr(v)
+            fields.append([k, type(v).__name__ + "#" + hashlib.sha1(r.encode()).hexdigest()[:8]])
+    return [cv.name, fields]
+
+
+def algebra_queries(u, pred):
+    """The four placements of the property plus shapes in which a VALUES clause sits deeper or more than once."""
+    qs = [q for _, q in variants(u, pred)]
+    qs += [
+        f"SELECT ?o WHERE {{ {{ ?s <{pred}> ?o }} UNION {{ ?o <{pred}> ?s }} }} VALUES ?s {{ <{u}> }}",
+        f"SELECT ?o WHERE {{ ?s <{pred}> ?o OPTIONAL {{ ?o <{pred}> ?x VALUES ?x {{ <{u}> }} }} }} VALUES ?s {{ <{u}> }}",
+        f"SELECT ?o WHERE {{ {{ SELECT ?s ?o WHERE {{ ?s <{pred}> ?o }} VALUES ?s {{ <{u}> }} }} FILTER(?o != ?s) }}",
+        f"SELECT ?s ?o WHERE {{ VALUES ?s {{ <{u}> }} VALUES ?o {{ <{u}> }} ?s <{pred}> ?o }}",
+        f"SELECT ?o WHERE {{ ?s <{pred}> ?o . ?o <{pred}> ?z }} VALUES (?s ?z) {{ (<{u}> <{u}>) }}",
+        f"ASK {{ ?s <{pred}> ?o }} VALUES ?s {{ <{u}> }}",
+    ]
+    return qs
+
+
 def install_multipart_stub():
     """python-multipart is not installed in this sandbox; FastAPI only checks that it can be imported when a Form
     route is declared.  The stub makes the GET route usable; the POST route cannot be exercised."""
@@ -73,7 +104,8 @@ class C18(Plugin):
             "configured predicate or another predicate), each issued four ways: ?s bound / ?o bound x VALUES inside / after the WHERE block, through "
             "graph.query with the custom processor; the first query also through Flask GET and POST and FastAPI GET; 12 Accept headers from an "
             "RFC 7231 generator over supported, synonym and unsupported media types with q-values, parameters, upper-case Q and optional "
-            "whitespace, missing and empty headers). Non-trivial: a recognised URI whose record has >= 2 URI prefixes, or a header with >= 2 types.")
+            "whitespace, missing and empty headers; the SPARQL algebra trees of ten query shapes (the four placements, UNION, OPTIONAL with an inner VALUES, "
+            "sub-select, two VALUES clauses, multi-variable VALUES, ASK) as rdflib translates them, before and after the implementation's _optimize_node). Non-trivial: a recognised URI whose record has >= 2 URI prefixes, or a header with >= 2 types.")
     assumptions = ["rdflib's SPARQL parser / evaluator, result serialisers and the web stacks are runtime: exercised, not modelled",
                    "FastAPI POST cannot be exercised (python-multipart is not installed; a harness-local import stub enables the GET route only)",
                    "q-values have at most 3 decimals, where float comparison equals rational comparison"]
@@ -105,7 +137,7 @@ class C18(Plugin):
             # staging: with early < len(recs) the graph and the web apps are created, and the same requests sent once, while the
             # converter holds only the first `early` records; the other records are then added to the live converter
             early = rng.choice([len(recs)] * 3 + list(range(len(recs))))
-            yield [recs, "", queries, headers, [], early]
+            yield [recs, "", queries, headers, [], early, []]
 
     def observe(self, case):
         import rdflib
@@ -137,7 +169,27 @@ class C18(Plugin):
                 ea = None
             renderings.append(None if ea is None else Some(list(ea)))
             used |= {ch for v in (ea or []) for ch in v}
-        case = [recs, "".join(sorted(ch for ch in used if ch in _invalid_uri_chars)), queries, headers, renderings, early]
+        # the algebra trees of the first query's shapes as rdflib translates them, and what the implementation's _optimize_node makes
+        # of them (each query is translated twice: the rewriting works in place)
+        from rdflib.plugins.sparql.algebra import translateQuery
+        from rdflib.plugins.sparql.parser import parseQuery
+
+        from curies.mapping_service.rdflib_custom import _optimize_node
+
+        before, after = [], []
+        for u, is_pred in queries[:1]:
+            for q in algebra_queries(u, SAME if is_pred else OTHER_P):
+                try:
+                    b = alg_tree(translateQuery(parseQuery(q)).algebra)
+                except Exception:
+                    continue        # rdflib does not parse this IRI / shape: not a query
+                try:
+                    a = alg_tree(_optimize_node(translateQuery(parseQuery(q)).algebra))
+                except Exception as e:
+                    a = ["<error " + type(e).__name__ + ">", []]
+                before.append(b)
+                after.append(a)
+        case = [recs, "".join(sorted(ch for ch in used if ch in _invalid_uri_chars)), queries, headers, renderings, early, before]
 
         qa = []
         web_checked = False
@@ -173,7 +225,7 @@ class C18(Plugin):
                 if got != v:
                     v = f"<flask content-type {got}>"
             ha.append(None if v is None else Some(v))
-        return case, [qa, ha]
+        return case, [qa, ha, after]
 
     def make_clients(self, c):
         """One Flask client and one FastAPI client per case, created when the converter is first available and kept."""
@@ -226,6 +278,9 @@ class C18(Plugin):
 
     def stats(self, case, obs, acc):
         acc["sparql_queries"] = acc.get("sparql_queries", 0) + 4 * len(obs[0])
+        acc["algebra_trees_rewritten_by__optimize_node"] = acc.get("algebra_trees_rewritten_by__optimize_node", 0) + (len(obs[2]) if len(obs) > 2 else 0)
+        if len(obs) > 2 and len(case) > 6:
+            acc["algebra_trees_changed_by_the_rewriting"] = acc.get("algebra_trees_changed_by_the_rewriting", 0) + sum(1 for a, b in zip(case[6], obs[2]) if a != b)
         if len(case) > 5 and case[5] < len(case[0]):
             acc["cases_with_requests_before_the_converter_was_complete"] = acc.get("cases_with_requests_before_the_converter_was_complete", 0) + 1
         acc["headers"] = acc.get("headers", 0) + len(obs[1])
@@ -240,11 +295,15 @@ class C18(Plugin):
 
     def explain(self, case, obs, model):
         out = []
-        if model and len(model) == 2:
+        if model and len(model) >= 2:
             for q, a, b in zip(case[2], obs[0], model[0]):
                 if a != b:
                     out.append({"query": q, "impl": a, "model": b})
             for h, a, b in zip(case[3], obs[1], model[1]):
                 if a != b:
                     out.append({"header": plain(h), "impl": plain(a), "model": plain(b)})
+            if len(model) > 2 and len(obs) > 2:
+                for t, a, b in zip(case[6] if len(case) > 6 else [], obs[2], model[2]):
+                    if a != b:
+                        out.append({"algebra tree before": plain(t), "after _optimize_node (impl)": plain(a), "model": plain(b)})
         return out[:8]
